@@ -93,6 +93,54 @@ theorem float_ok_iff (x : Num) (is32 : Bool) (g : GoVal) :
     have := (fromNumFloat_ok_iff x is32 f).mpr ⟨hf, hi⟩
     rw [h] at this; cases this
 
+/-- … and otherwise (a finite number that would be stored as an infinity) the result is an error -/
+theorem float_err_otherwise (x : Num) (is32 : Bool)
+    (h : x.isInf = false ∧ (if is32 then Num.f64to32 x.toF64.1 else x.toF64.1).isInf = true) :
+    ∃ c, fromNum x (.float is32) = .err c := by
+  rw [fromNum_float]
+  have hnp := fromNumFloat_isPanic x is32
+  cases hf : fromNumFloat x is32 with
+  | ok f =>
+    obtain ⟨rfl, h2⟩ := (fromNumFloat_ok_iff x is32 f).mp hf
+    rcases h2 with h2 | h2
+    · rw [h.1] at h2; cases h2
+    · rw [h.2] at h2; cases h2
+  | err c => exact ⟨c, rfl⟩
+  | panic w => rw [hf] at hnp; cases hnp
+  | unmodelled =>
+    exfalso
+    unfold fromNumFloat at hf
+    simp only [] at hf
+    split at hf
+    · cases hf
+    · split at hf <;> cases hf
+
+/-- The finite ranges, at their edges (evaluated by the kernel): the largest finite
+float64/float32 is accepted and stored as itself; the least number that rounds to
+an infinity — 2^1024 − 2^970, resp. 2^128 − 2^103 — is refused, a number just
+below it is accepted and stored as the largest finite value; −2^128 is refused by
+float32 and stored exactly by float64; the infinities are accepted; numbers too
+small for the type are stored as (signed) zero, as `Float64()` documents. -/
+theorem float_range_witnesses :
+    let max64 : Num := .fin false (2 ^ 53 - 1) 971 53
+    let max32 : Num := .fin false (2 ^ 24 - 1) 104 53
+    fromNum max64 (.float false) = .ok (.flt max64) ∧
+    fromNum (.fin false (2 ^ 54 - 1) 970 512) (.float false) = .err "value must be between" ∧
+    fromNum (.fin false (2 ^ 100 - 2 ^ 46 - 1) 924 512) (.float false) = .ok (.flt max64) ∧
+    fromNum max32 (.float true) = .ok (.flt max32) ∧
+    fromNum (.fin false (2 ^ 25 - 1) 103 512) (.float true) = .err "value must be between" ∧
+    fromNum (.fin false (2 ^ 48 - 2 ^ 23 - 1) 80 512) (.float true) = .ok (.flt max32) ∧
+    fromNum (.fin true 1 128 64) (.float true) = .err "value must be between" ∧
+    fromNum (.fin true 1 128 64) (.float false) = .ok (.flt (.fin true 1 128 53)) ∧
+    fromNum (.inf true) (.float true) = .ok (.flt (.inf true)) ∧
+    fromNum (.inf false) (.float false) = .ok (.flt (.inf false)) ∧
+    fromNum (.fin true 1 (-1075) 64) (.float false) = .ok (.flt (.fin true 0 0 53)) := by
+  refine ⟨?_, ?_, ?_, ?_, ?_, ?_, ?_, ?_, ?_, ?_, ?_⟩ <;> rfl
+
+/-- a float64/float32 value (the harness' canonical form of one) is decoded to itself -/
+theorem float_exact (x : Num) (is32 : Bool) (h : (if is32 then x.isF32 else x.isF64) = true) :
+    fromNum (fixPrec x) (.float is32) = .ok (.flt x) := flt_roundtrip x is32 h
+
 /-! ### "otherwise, and for unknown values, nulls into non-nilable targets and shape mismatches, it returns an error" -/
 
 /-- unknown values (marked or not) are refused by every target other than a `cty.Value` -/
@@ -151,6 +199,19 @@ big numbers (numbers).  `rtSide norm g T` (decidable) says:
 * no `cty.Value` below a slice, array or map (a cty list/map has one element type),
   and no `cty.NilVal` (the invalid zero `cty.Value`) in a bridged position.
 The first two are exactly the two recorded known findings; see the counterexamples. -/
+
+/-- nil ↔ null, stated on its own: a nil slice, map or pointer converts to the null
+value of the wanted type, and a null list / map / anything-through-a-pointer decodes
+to a nil slice / map / pointer (a pointer to a non-nilable, non-`cty.Value` type). -/
+theorem nil_is_null (norm : String → String) (t : Ty) (E : GoTy) :
+    toCty norm .nilSlice (.list t) = .ok (Value.null (.list t)) ∧
+    toCty norm .nilMap (.map t) = .ok (Value.null (.map t)) ∧
+    toCty norm .nilPtr t = .ok (Value.null t) ∧
+    fromCty (Value.null (.list t)) (.slice E) = .ok .nilSlice ∧
+    fromCty (Value.null (.map t)) (.map E) = .ok .nilMap ∧
+    fromCty (Value.null .string) (.ptr .str) = .ok .nilPtr ∧
+    fromCty (Value.null .number) (.ptr (.ptr (.int .w8 false))) = .ok (.ptr .nilPtr) :=
+  ⟨rfl, rfl, rfl, rfl, rfl, rfl, rfl⟩
 
 /-- The unconditional round-trip statement (false of the code, see below). -/
 def RoundtripAll : Prop :=
